@@ -41,7 +41,7 @@ func (m *marker) Process(ctx context.Context, e *eventlogger.Event) (*eventlogge
 	}
 	return e, nil
 }
-func (m *marker) Reopen() error              { return nil }
+func (m *marker) Reopen() error { return nil }
 func (m *marker) Type() eventlogger.NodeType {
 	for i := 0; i < m.slowType; i++ {
 		runtime.Gosched()
